@@ -44,6 +44,7 @@ def prep_rich(L, d):
     pal = L.GRgetlutid(ri, 0)
     L.GRwritelut(pal, 3, DFNT["uint8"], 0, 256, bytes(range(256)) * 3)
     L.GRsetattr(ri, b"note", DFNT["int16"], 2, struct.pack("=2h", 5, 6))
+    L.GRsetattr(gr, b"gnote", DFNT["int16"], 1, struct.pack("=h", 9))
     L.GRendaccess(ri)
     ri = L.GRcreate(gr, b"cimg", 1, DFNT["uint8"], 0, i32arr([4, 3]))
     ci = (c_int32 * 8)()
@@ -79,13 +80,31 @@ def prep_rich(L, d):
     s = L.SDcreate(sd, b"unl", DFNT["int16"], 2, i32arr([0, 2]))
     L.SDwritedata(s, i32arr([0, 0]), None, i32arr([3, 2]), h4api.pack(22, [1, 2, 3, 4, 5, 6]))
     L.SDendaccess(s)
+    s = L.SDcreate(sd, b"empty", DFNT["int32"], 1, i32arr([4]))      # a data set that never got data
+    L.SDendaccess(s)
     s = L.SDselect(sd, L.SDnametoindex(sd, b"oldsds"))
     dm = L.SDgetdimid(s, 0)
     L.SDsetdimname(dm, b"rows")
     L.SDsetdimscale(dm, 3, DFNT["int16"], h4api.pack(22, [10, 20, 30]))
     L.SDsetattr(sd, b"title", DFNT["char8"], 5, b"hello")
+    L.SDsetattr(dm, b"dnote", DFNT["int16"], 1, struct.pack("=h", 4))
     L.SDendaccess(s)
     L.SDend(sd)
+
+
+def m_sdwrite_empty(c):
+    """SDwritedata on a data set that holds no data yet (only the 'rich' file has one)"""
+    L = c.L
+    i = L.SDnametoindex(c.v["sd"], b"empty")
+    if i == FAIL:
+        return FAIL
+    s = L.SDselect(c.v["sd"], i)
+    if s == FAIL:
+        return FAIL
+    buf = h4api.pack(24, [5, 6])
+    r = L.SDwritedata(s, i32arr([0]), None, i32arr([2]), buf)
+    L.SDendaccess(s)
+    return r
 
 
 PREP = {"mixed": lambda L, d: workloads.prep_mixed(L, d), "rich": prep_rich}
@@ -535,6 +554,15 @@ MUTATORS = {
     "SDsetnbitdataset": lambda c: c.L.SDsetnbitdataset(c.v["sds"], 3, 4, 0, 0),
     "SDsetexternalfile": lambda c: c.L.SDsetexternalfile(c.v["sds"], b"newsdext.dat", 0),
     "GRcreate": m_grcreate, "GRwriteimage": m_grwriteimage,
+    # the same setters on attributes that ARE in the file (same type and count: the replacement every interface allows)
+    "Vsetattr_existing": lambda c: c.L.Vsetattr(c.v["vg"], b"gattr", DFNT["int32"], 1, struct.pack("=i", 78)),
+    "VSsetattr_existing": lambda c: c.L.VSsetattr(c.v["vs"], -1, b"vattr", DFNT["int16"], 1, struct.pack("=h", 4)),
+    "SDsetattr_file_existing": lambda c: c.L.SDsetattr(c.v["sd"], b"title", DFNT["char8"], 5, b"HELLO"),
+    "SDsetattr_sds_existing": lambda c: c.L.SDsetattr(c.v["sds"], b"units", DFNT["char8"], 3, b"km "),
+    "SDsetattr_dim_existing": lambda c: c.L.SDsetattr(c.v["dim"], b"dnote", DFNT["int16"], 1, struct.pack("=h", 5)),
+    "GRsetattr_file_existing": lambda c: c.L.GRsetattr(c.v["gr"], b"gnote", DFNT["int16"], 1, struct.pack("=h", 10)),
+    "GRsetattr_ri_existing": lambda c: c.L.GRsetattr(c.v["ri"], b"note", DFNT["int16"], 2, struct.pack("=2h", 7, 8)),
+    "SDwritedata_empty": m_sdwrite_empty,
     "GRsetattr_file": lambda c: c.L.GRsetattr(c.v["gr"], b"newattr", DFNT["int16"], 1, struct.pack("=h", 1)),
     "GRsetattr_ri": lambda c: c.L.GRsetattr(c.v["ri"], b"newattr", DFNT["int16"], 1, struct.pack("=h", 1)),
     "GRwritelut": lambda c: c.L.GRwritelut(c.v["pal"], 3, DFNT["uint8"], 0, 256, bytes(768)),
